@@ -218,6 +218,17 @@ def defect_class(case):
 # ----------------------------------------------------------------------------------------------
 # running the real code
 # ----------------------------------------------------------------------------------------------
+def share_nan(o):
+    import math
+    if isinstance(o, float) and o != o:
+        return math.nan
+    if isinstance(o, tuple):
+        return tuple(share_nan(e) for e in o)
+    if isinstance(o, list):
+        return [share_nan(e) for e in o]
+    return o
+
+
 def run_case(case):
     """Drive the real SafeLearner exactly as SequentialCB does: predict, then learn with what predict returned.
     Returns (learner, per-call records holding live objects)."""
@@ -245,6 +256,8 @@ def run_case(case):
             safe = safes[w]
             ctxs = [dec(r["ctx"]) for r in call]
             acts = [[dec(a) for a in r["actions"]] for r in call]
+            if case.get("share_nan"):
+                acts = [[share_nan(a) for a in A] for A in acts]      # `math.nan`: ONE object, the usual way a nan gets into a list
             bnow = batches[w] if not case.get("batches") else bool(case["batches"][ci])
             if bnow:
                 ctx, act = Batch.List(ctxs), Batch.List(acts)
@@ -601,7 +614,7 @@ class Refs:
     """object identity -> who created the object (ext = environment, safe = SafeLearner's float copies, lrn = learner)"""
 
     def __init__(self):
-        self.map, self.keep, self.n_ext, self.n_lrn = {}, [], 0, 0
+        self.map, self.keep, self.n_ext, self.n_lrn, self.nans = {}, [], 0, 0, 0
 
     def _reg(self, o, ref):
         self.map[id(o)] = ref
@@ -638,8 +651,12 @@ class Refs:
             return {"i": o}
         if isinstance(o, float):
             from fractions import Fraction
-            if o != o or o in (float("inf"), float("-inf")):
-                raise Unencodable("nan/inf is not in the model (exact rationals)")
+            if o != o:
+                # a nan OBJECT: the model's token `mkNan ref` (equal to itself as a container item, to nothing else)
+                self.nans += 1
+                return {"nan": [self.ref(o, safe)]}
+            if o in (float("inf"), float("-inf")) or o < -2.0 ** 40:
+                raise Unencodable("inf / the range of the nan tokens is not in the model (exact rationals)")
             fr = Fraction(o)
             return {"f": [self.ref(o, safe), fr.numerator, fr.denominator]}
         if isinstance(o, str):
@@ -759,6 +776,8 @@ def strip(v):
         return v
     if k == "f":
         return {"f": [x[1], x[2]]}
+    if k == "nan":
+        return {"nan": 0}
     if k == "s":
         return {"s": x[1]}
     if k in ("t", "l"):
@@ -819,6 +838,10 @@ def gen_actions(rng, kind, K):
         return [{"s": v} for v in rng.sample(["aa", "bb", "cat", "dog", "action", "pmf", "xy", "left", "0"], K)]
     if kind == "nan":
         # nan != nan: `_prev_actions != actions` then depends on object identity; (B) only, the model has no nan
+        # phase 5: nan objects are tokens of the model ((A) too); every other draw puts 0/1 beside them (float copies are rebuilt
+        # exactly when the list holds another nan OBJECT)
+        if rng.chance(0.5):
+            return rng.shuffle([{"nan": 0}, {"i": 0}, {"i": 1}, {"nan": 0}, {"f": [1, 4]}][:max(K, 2)])
         return rng.shuffle([{"nan": 0}, {"f": [5, 2]}, {"f": [1, 4]}, {"nan": 0}, {"i": 3}][:max(K, 2)])
     if kind == "strpre":
         # strings that are prefixes of each other / two characters whose first character is itself offered (compass points)
@@ -1144,6 +1167,90 @@ def gen_ambiguous(rng):
     return case
 
 
+PF_TESTS = {
+    "isinstance(std_pred, dict)": "isDict", "'pmf' in std_pred": "hasPmf", "not actions": "noActions",
+    "no_len(pmf) or len(pmf) != len(actions)": "pmfLenBad", "'action' in std_pred": "hasAction", "'action_prob' in std_pred": "hasAP",
+    "no_len(ap) or len(ap) != 2": "apLenBad", "no_len(std_pred) or isinstance(std_pred, (str, dict))": "scalarLike",
+    "len(std_pred) != 2": "lenNe2", "len(std_pred) == 2": "lenEq2", "actions == [] or actions is None": "actionsEmpty",
+    "SafeLearner.possible_pmf(std_pred[0], actions)": "possPmf", "SafeLearner.possible_action(std_pred[0], actions)": "possAct",
+}
+PF_RETURNS = {"PM*": ".ret .PM true", "AX*": ".ret .AX true", "AP*": ".ret .AP true", "PM": ".ret .PM false", "AX": ".ret .AX false", "AP": ".ret .AP false"}
+PF_BINDS = {"pmf = std_pred['pmf']": "pmf", "ap = std_pred['action_prob']": "action_prob"}
+
+
+def extract_pred_format_tree(path):
+    """The body of SafeLearner.pred_format as a Lean `List PFStmt` (ast, no import, no execution): the `if` chain with each test mapped
+    to a PFAtom by its (ast.unparse-normalised) source text, `return '<fmt>'`, `raise <CobaException built at the top>`,
+    `std_pred = [std_pred]`, local bindings, `pass`.  Anything else becomes `.unknown` - then `pred_format_table` no longer proves.
+    Returns (lean_term, texts, n_unknown)."""
+    import ast
+    tree = ast.parse(open(path, encoding="utf-8").read())
+    cls = next(n for n in ast.walk(tree) if isinstance(n, ast.ClassDef) and n.name == "SafeLearner")
+    fn = next(n for n in cls.body if isinstance(n, ast.FunctionDef) and n.name == "pred_format")
+    texts, unknown, excs = [], [], set()
+
+    def is_item_is_action(t):
+        # any(std_pred[0] is <v> for <v> in actions), whatever the loop variable is called
+        try:
+            g = t.args[0]
+            c = g.generators[0]
+            return (isinstance(t, ast.Call) and t.func.id == "any" and len(t.args) == 1 and not t.keywords and isinstance(g, ast.GeneratorExp)
+                    and len(g.generators) == 1 and not c.ifs and isinstance(c.target, ast.Name) and ast.unparse(c.iter) == "actions"
+                    and isinstance(g.elt, ast.Compare) and len(g.elt.ops) == 1 and isinstance(g.elt.ops[0], ast.Is)
+                    and ast.unparse(g.elt.left) == "std_pred[0]" and isinstance(g.elt.comparators[0], ast.Name) and g.elt.comparators[0].id == c.target.id)
+        except Exception:
+            return False
+
+    def atom(t):
+        txt = ast.unparse(t)
+        texts.append(txt)
+        if is_item_is_action(t):
+            return ".itemIsAction"
+        if txt in PF_TESTS:
+            return "." + PF_TESTS[txt]
+        unknown.append(txt)
+        return ".unknown"
+
+    def stmts(body, top=False):
+        out = []
+        for st in body:
+            txt = ast.unparse(st)
+            if isinstance(st, ast.Expr) and isinstance(st.value, ast.Constant) and isinstance(st.value.value, str):
+                continue                                    # docstring
+            if top and isinstance(st, ast.Assign) and len(st.targets) == 1 and isinstance(st.targets[0], ast.Name):
+                name, v = st.targets[0].id, st.value
+                is_exc = lambda c: isinstance(c, ast.Call) and getattr(c.func, "id", None) == "CobaException"
+                if is_exc(v) or (isinstance(v, ast.Lambda) and is_exc(v.body)):
+                    excs.add(name)                          # the exceptions built at the top
+                    continue
+                if name == "no_len" and txt == "no_len = lambda item: not hasattr(item, '__len__')":
+                    continue
+            if isinstance(st, ast.If):
+                out.append(".ite %s [%s] [%s]" % (atom(st.test), ", ".join(stmts(st.body)), ", ".join(stmts(st.orelse))))
+            elif isinstance(st, ast.Return) and isinstance(st.value, ast.Constant) and st.value.value in PF_RETURNS:
+                out.append(PF_RETURNS[st.value.value])
+            elif isinstance(st, ast.Raise) and st.cause is None and (
+                    (isinstance(st.exc, ast.Name) and st.exc.id in excs) or
+                    (isinstance(st.exc, ast.Call) and isinstance(st.exc.func, ast.Name) and st.exc.func.id in excs)):
+                out.append(".raise")
+            elif txt == "std_pred = [std_pred]":
+                out.append(".wrap")
+            elif txt in PF_BINDS:
+                out.append(".bind %s" % json.dumps(PF_BINDS[txt]))
+            elif isinstance(st, ast.Pass):
+                out.append(".skip")
+            else:
+                unknown.append(txt)
+                out.append(".unknown")
+        return out
+    args = [a.arg for a in fn.args.args]
+    body = stmts(fn.body, top=True)
+    if args[:2] != ["std_pred", "actions"]:
+        unknown.append("signature " + ",".join(args))
+        body = [".unknown"] + body
+    return body, texts, unknown
+
+
 def extract_safety_consts(path):
     """hint key lists, possible_pmf's tolerance, the has_score / score / learn probe strings and make_safe's [0,1], read from the
     source text of coba/safety.py with ast (no import, no execution)"""
@@ -1214,7 +1321,7 @@ class C15(Property):
             "kwargs key order differs between rows in 25% of kwargs cases; in 30% of batched cases learn / score take batches independently of predict; "
             "6% of cases are run as a caller that builds a fresh action list per call and drops it (0/1-containing, changing sets; (B) only); 40% of the seeded end-to-end cases "
             "evaluate 2-4 times on ONE SequentialCB object while the experiment seed changes; 12% of learners have no / the base class's / an always-raising score (has_score and score error paths, (A)); 4% of cases switch one wrapper between "
-            "batched and unbatched calls ((A) only); action kind `nan` ((B) only: not in the model); "
+            "batched and unbatched calls ((A) only); action kind `nan` (phase 5: nan objects are tokens of the model, (A) on the recorded learner + (C) nan_encoding_faithful; one shared `math.nan` object or a fresh object per call); "
             "12% of cases are SafeLearner(SafeLearner(L), seed2) histories (two wrappers of one learner, calls interleaved, each batched or unbatched on its own); "
             "string action sets with prefixes of each other (compass points); 20% of PMFs sum to 1 +- d/65536 with d spread over the documented tolerance .001; "
             "round g: learners that cannot batch refuse with the real exception of their first operation on a batched value (18 flavours: int()/float() 'argument must be', "
@@ -1224,6 +1331,10 @@ class C15(Property):
             "non-trivial = in-quantifier case for which the real code returned a result for every call, with >= 2 rows overall or a PMF draw; "
             "distinct by canonical JSON of the case")
     trusted_base = [
+        "nan objects: CPython compares container items with `x is y or x == y` (PyObject_RichCompareBool: list.__eq__, `in`), which is what `richEq` "
+        "states; the anchored code compares actions only through containers; the nan tokens are faithful for comparisons, not arithmetic ((A) on nan cases inside the quantifier only)",
+        "translator: ast.unparse text of each `if` test of pred_format -> PFAtom (PF_TESTS in harness/props/c15.py); the meaning of each atom is pfEval (Model/C15.lean), "
+        "compared with the real pred_format on every case (A:pred_format) and proved equal to predFormat (pred_format_table)",
         "CPython object identity: the harness numbers the objects the learner receives/returns by id(); ints in [-5,256], bools and None are compared by value by `is` in the model (small-int interning)",
         "coba.random.CobaRandom.choicew is the C05 model (finished property C05); PMF entries are dyadic so float sums are exact rationals",
         "isclose(sum,1,abs_tol=.001) modelled as |sum-1| <= 1/1000 (generated sums are 1 + d/65536 with |d| <= 65 inside, |d| >= 66 outside, or off by >= 1/16; 16-bit entries keep float sums exact)",
@@ -1246,7 +1357,7 @@ class C15(Property):
                         "the layout/call style memoised on the first call is kept); the model mirrors the code there and is compared on generated mixed histories",
                         "pyEq_seq_equiv": "== is proved an equivalence on scalars nested in tuples/lists to any depth (seqVal); dict values need duplicate-free keys "
                         "(pyEq_dict_dupkeys_counterexample: the model's key/value lists admit a repeated key, then == is not symmetric) - that case is open; "
-                        "for cached action sets cached_actions_equal needs no transitivity; nan not in the model ((B) only)",
+                        "for cached action sets cached_actions_equal needs no transitivity; nan objects = tokens `mkNan ref` outside the range of the generated floats (nan_encoding_faithful; floats below -2^40 and inf are refused by the encoder)",
                         "history_roundtrip": "full strength for every Fixes value; for the model's dict = abc.Mapping reading it mirrors the code only once "
                         "fixes/C15-colhint-kwargs-mapping.diff (open finding C15-F5) is applied - until then (A) is skipped in that region"}
 
@@ -1286,7 +1397,28 @@ class C15(Property):
             os.makedirs(os.path.dirname(path), exist_ok=True)
             with open(path, "w", encoding="utf-8") as f:
                 f.write(body)
-        return [note]
+        # pred_format's decision tree -> Generated/C15PredFormat.lean; `pred_format_table` proves that running it is the model's predFormat
+        path2 = os.path.join(lean.LEAN_DIR, "CobaVerif", "Generated", "C15PredFormat.lean")
+        try:
+            tree, texts, unknown = extract_pred_format_tree(os.path.join(os.environ.get("COBA_REPO", "/repo"), "coba", "safety.py"))
+            note2 = "pred_format decision tree extracted: %d tests, %d unknown%s" % (len(texts), len(unknown), (" " + json.dumps(unknown)[:300]) if unknown else "")
+        except Exception as e:
+            tree, texts = [".unknown"], []
+            note2 = "pred_format could not be parsed (%s: %s): tree [.unknown] written" % (type(e).__name__, e)
+        lines2 = ["-- GENERATED by harness/props/c15.py from SafeLearner.pred_format in coba/safety.py (ast) on every run; do not edit.",
+                  "import CobaVerif.Model.C15",
+                  "namespace Coba.Generated.C15",
+                  "open Coba.C15 in",
+                  "/-- the body of `pred_format(std_pred, actions)`, statement by statement (tests in source order: %s) -/" % "; ".join(texts).replace("-/", "- /"),
+                  "def predFormatTree : List PFStmt := ["]
+        lines2 += ["  " + t + ("," if i + 1 < len(tree) else "") for i, t in enumerate(tree)]
+        lines2 += ["]", "end Coba.Generated.C15", ""]
+        body2 = "\n".join(lines2)
+        old2 = open(path2, encoding="utf-8").read() if os.path.exists(path2) else None
+        if old2 != body2:
+            with open(path2, "w", encoding="utf-8") as f:
+                f.write(body2)
+        return [note, note2]
 
     # ---- cases
     def generate(self, rng, tier):
@@ -1365,6 +1497,8 @@ class C15(Property):
                     recorded.append(e)
         except Unencodable:
             return
+        if refs.nans and not in_quantifier(case)[0]:
+            return        # nan tokens are faithful for comparisons only (see correspond)
         ans = driver.ask({"fx": variant(), "seed": 1 if case.get("seed") is None else case["seed"], "seed2": 1 if rw.get("seed2") is None else rw["seed2"],
                           "who": [bool(int(r["w"])) for r in recs], "calls": calls, "recorded": recorded})
         d = outcomes_differ(outcome_impl(recs), outcome_model(ans["two"]))
@@ -1468,7 +1602,14 @@ class C15(Property):
         fx = variant()
         tags.append("variant:" + "".join(k[0] + str(int(v)) for k, v in sorted(fx.items())))
         req = {"fx": fx, "seed": 1 if case.get("seed") is None else case["seed"], "calls": calls, "recorded": recorded}
-        if case.get("answer", "offered") == "offered":
+        if refs.nans and not inq:
+            # the tokens are faithful for COMPARISONS (nan_encoding_faithful), not for arithmetic: a learner outside the quantifier
+            # (copies / malformed answers) can get a nan summed or drawn from as a PMF weight - there the model has nothing to say
+            tags.append("nan:A-skipped/out-of-quantifier")
+            return None
+        if refs.nans:
+            tags.append("nan:A/%s%s" % ("shared" if case.get("share_nan") else "fresh", "/calls%d" % min(len(recs), 3)))
+        if case.get("answer", "offered") == "offered" and not refs.nans:
             req["spec"] = {"fmt": case["fmt"], "kw": bool(case.get("kw")), "layout": case["layout"], "tup": case.get("wrap", "tuple") == "tuple",
                            "pmfTup": case.get("pmf_type", "list") == "tuple"}
             pol = []
@@ -1502,7 +1643,50 @@ class C15(Property):
                     req["score_probe"] = {"attr": isinstance(ex, AttributeError), "msg": str(ex)}
                 if kind == "base" or isinstance(kind, list):
                     req["score_fail"] = dict(req["score_probe"]) if "msg" in req["score_probe"] else None
+        # pred_format directly: on the learner's own one-row answers (as first_row standardises them) with the actions it was
+        # given, with [] and with None - real SafeLearner.pred_format vs the model's predFormat (A) vs the source's decision tree (C)
+        pf_real = []
+        try:
+            from coba.safety import SafeLearner as _SL
+            req["pf"] = []
+            seen_pf = 0
+            for (b, c, a), lans in zip(learner.predict_calls, learner.answers):
+                if b or isinstance(lans, BaseException) or seen_pf >= 2:
+                    continue
+                try:
+                    std = _SL.first_row(lans, "not", _SL.has_kwargs(lans, "not"))
+                except Exception:
+                    continue
+                seen_pf += 1
+                for acts_ in (a, [], None):
+                    try:
+                        real = {"ok": _SL.pred_format(std, acts_)}
+                    except Exception as ex:
+                        real = {"err": EXC.get(type(ex).__name__, type(ex).__name__)}
+                    item = {"sp": refs.enc(std)}
+                    if acts_ is not None:
+                        item["actions"] = [refs.enc(x) for x in acts_]
+                    req["pf"].append(item)
+                    pf_real.append((real, "given" if acts_ is a else ("[]" if acts_ == [] else "None")))
+        except Unencodable:
+            req.pop("pf", None)
+            pf_real = []
         ans = driver.ask(req)
+        for (real, how), m in zip(pf_real, ans.get("pf") or []):
+            tags.append("pf:%s/%s" % (how, real.get("ok", real.get("err"))))
+            mm, tt = m["model"], m["table"]
+            if ("ok" in real) != ("ok" in mm) or ("ok" in real and real["ok"] != mm["ok"]) or ("err" in real and mm["err"] != "Other" and real["err"] != mm["err"]):
+                fails.append(F("A", "pred_format(%s actions): implementation %s, model %s" % (how, json.dumps(real), json.dumps(mm)), "A:pred_format:" + how))
+            elif fx.get("short") and tt != mm:
+                fails.append(F("C", "pred_format(%s actions): the decision tree read from the source gives %s, the model %s" % (how, json.dumps(tt), json.dumps(mm)), "C:pf-table"))
+        nc = ans.get("nan_check")
+        if nc and nc.get("nans"):
+            # (C) nan_encoding_faithful on the objects of this case; `side` = its hypothesis (numbers outside the token range,
+            # a number object is not a nan object) - true by construction of the encoding
+            if not nc.get("side"):
+                tags.append("nan:side-condition-false")
+            elif not nc.get("ok"):
+                fails.append(F("C", "nan tokens: richEq differs from pyIs||pyEq on the objects of the calls", "C:nan"))
         mrec = outcome_model(ans["recorded"])
         d = outcomes_differ(impl, mrec)
         name = "%s/%s%s" % (("not" if not case.get("batch") else case["layout"]), case["fmt"], "+kw" if case.get("kw") else "")
@@ -1821,6 +2005,23 @@ def corpus_cases():
             rows = [row(nan_acts, (i + 2) % 3, i) for i in range(1 if mode == "not" else 2)]
             cs.append({"seed": 1, "fmt": fmt, "kw": False, "layout": "single" if mode == "not" else mode, "batch": mode != "not",
                        "calls": [rows, rows, rows[:1]]})
+    # phase 5: nan objects in the model.  ONE shared nan object (`math.nan`: the cache `_prev_actions != actions` hits through the
+    # identity shortcut of list.__eq__) vs a fresh nan object per call (the cache misses, float copies are rebuilt); with and
+    # without 0/1 beside the nan; nan inside a tuple action; the nan itself named
+    nan_sets = [[{"nan": 0}, {"f": [5, 2]}, {"nan": 0}], [{"i": 0}, {"nan": 0}, {"i": 1}], [{"nan": 0}, {"b": True}],
+                [{"t": [{"nan": 0}, {"i": 1}, {"i": 2}]}, {"t": [{"i": 1}, {"nan": 0}, {"i": 3}]}, {"nan": 0}]]      # (3-tuples: a 2-tuple starting with an offered object is the documented two-readings case)
+    for acts in nan_sets:
+        for fmt in ("A", "AP", "PM", "dA", "dAP"):
+            for mode in ("not", "single", "row", "col"):
+                for shared in (True, False):
+                    n = 1 if mode == "not" else 2
+                    calls = [[row(acts, (ci + i) % len(acts), 10 * ci + i, kw=[[{"s": "k"}, {"i": i}]]) for i in range(n)] for ci in range(3)]
+                    calls.append([row(acts[:2], i % 2, 90 + i, kw=[[{"s": "k"}, {"i": i}]]) for i in range(n)])
+                    c = {"seed": 3, "fmt": fmt, "kw": fmt in ("AP", "dA"), "layout": "single" if mode == "not" else mode, "batch": mode != "not",
+                         "calls": calls}
+                    if shared:
+                        c["share_nan"] = True
+                    cs.append(c)
     # round f: kwargs keys named like the parameters of the functions on the delivery path (`_safe_call(key, method, args,
     # kwargs, has_out)` ...): learn must receive them unchanged, one at a time and all together, single and batched
     names = path_names()
